@@ -328,6 +328,12 @@ def sched_configs(tier="quick"):
     out.append(dict(env="fjsp", jobs=4, mas=2, min_ops=2, max_ops=3, mask_no_ops=True, n=12, pmax=6000))
     out.append(dict(env="jssp", jobs=4, mas=3, one2one=True, mask_no_ops=True, n=12, pmax=6000))
     out.append(dict(env="jssp", jobs=3, mas=2, min_ops=1, max_ops=2, one2one=False, mask_no_ops=False, n=6, pmax=9000))
+    # documented constructor options of the job-shop envs that no other config sets: step-wise reward (change of the lower bound
+    # of the makespan) and the env's own mask assertion
+    out.append(dict(env="fjsp", jobs=4, mas=3, min_ops=1, max_ops=3, mask_no_ops=True, n=12, stepwise=True))
+    out.append(dict(env="fjsp", jobs=3, mas=2, min_ops=2, max_ops=3, mask_no_ops=False, n=9, stepwise=True, check_mask=True))
+    out.append(dict(env="jssp", jobs=4, mas=3, one2one=True, mask_no_ops=True, n=12, stepwise=True))
+    out.append(dict(env="jssp", jobs=3, mas=3, min_ops=1, max_ops=3, one2one=False, mask_no_ops=False, n=9, check_mask=True))
     for n in ((4, 7) if tier == "quick" else (3, 4, 7, 10, 20)):
         out.append(dict(env="smtwtp", n=n))
     return out
@@ -396,6 +402,15 @@ def enter_default_dpp_cwd():
     return os.path.join(root, "data", "dpp")
 
 
+def _js_opts(cfg):
+    o = {}
+    if cfg.get("stepwise"):
+        o["stepwise_reward"] = True
+    if cfg.get("check_mask"):
+        o["check_mask"] = True
+    return o
+
+
 def make_other(cfg):
     import rl4co.envs as E
 
@@ -403,12 +418,12 @@ def make_other(cfg):
     kw = dict(_torchrl_mode=True) if cfg.get("torchrl") else {}
     if name == "fjsp":
         gp = dict(num_jobs=cfg["jobs"], num_machines=cfg["mas"], min_ops_per_job=cfg["min_ops"], max_ops_per_job=cfg["max_ops"], max_processing_time=cfg.get("pmax", 9))
-        return E.FJSPEnv(generator_params=gp, mask_no_ops=cfg["mask_no_ops"], **kw)
+        return E.FJSPEnv(generator_params=gp, mask_no_ops=cfg["mask_no_ops"], **_js_opts(cfg), **kw)
     if name == "jssp":
         gp = dict(num_jobs=cfg["jobs"], num_machines=cfg["mas"], max_processing_time=cfg.get("pmax", 9), one2one_ma_map=cfg["one2one"])
         if not cfg["one2one"]:
             gp.update(min_ops_per_job=cfg["min_ops"], max_ops_per_job=cfg["max_ops"])
-        return E.JSSPEnv(generator_params=gp, mask_no_ops=cfg["mask_no_ops"], **kw)
+        return E.JSSPEnv(generator_params=gp, mask_no_ops=cfg["mask_no_ops"], **_js_opts(cfg), **kw)
     if name == "ffsp":
         return E.FFSPEnv(generator_params=dict(num_stage=cfg["stages"], num_machine=cfg["mas"], num_job=cfg["jobs"], flatten_stages=cfg["flatten"], min_time=1, max_time=cfg.get("tmax", 6)), **kw)
     if name == "smtwtp":
